@@ -10,6 +10,6 @@ for m in m1 m2; do
   nu=$(echo "$out" | grep "^VIOLATION prop" | grep -c "no-failing-input-found")
   na=$(echo "$out" | grep -c "DOES NOT APPLY")
   first=$(echo "$out" | grep "^VIOLATION prop" | grep -v no-failing | head -2 | sed 's#.*replay=/verif/replay/##' | tr '\n' ' ')
-  conf=$(/verif/tools/confirm_mut.sh $ID $D ${ID}-w${SUF}${m} 2>&1 | grep "^RESULT\|PATCH DOES" | head -1)
+  [ -n "${NOCONFIRM:-}" ] && conf="(confirmation skipped)" || conf=$(/verif/tools/confirm_mut.sh $ID $D ${ID}-w${SUF}${m} 2>&1 | grep "^RESULT\|PATCH DOES" | head -1)
   echo "$ID-w$SUF$m [$CK]: $ex concrete=$nv unproved=$nu noapply=$na | $first | $conf"
 done
